@@ -1,7 +1,7 @@
 """Sidecar contracts for pendulum/_helpers.py and pendulum/helpers.py (calendar primitives, C15;
 add_duration, C03/C04; precise_diff, C06)."""
 from pyvc import spec, sym
-from pyvc.contract import Loop, contract, transparent
+from pyvc.contract import Cut, Loop, contract, transparent
 from pyvc.spec import D, E0
 from pyvc.sym import And, If, Implies, Not, Or, b2i, eq, ge, gt, le, lt, ne
 
@@ -144,3 +144,168 @@ class local_time:
         2: Loop(_inv1, variant=lambda e, en, a: sym.sub(sym.add(en.year, 3), e.year)),
         3: Loop(_invmonth, variant=lambda e, en, a: e.month),
     }
+
+
+# ========================================================================================== add_duration (C03, C04)
+import datetime as _dt
+
+from pyvc import stdlib
+from pyvc.engine import Obj
+from pyvc.spec import DUS, M
+
+_UNITS = ("years", "months", "weeks", "days", "hours", "minutes", "seconds", "microseconds")
+
+
+def delta_us(weeks, days, hours, minutes, seconds, microseconds):
+    """elapsed microseconds of the non-calendar part (exact; a float `seconds` is rounded half-even by timedelta)"""
+    tot = sym.add(sym.mul(sym.add(sym.mul(weeks, 7), days), DUS),
+                  sym.add(sym.mul(sym.add(sym.add(sym.mul(hours, 3600), sym.mul(minutes, 60)), seconds), M), microseconds))
+    return sym.rhe(tot) if sym.is_reallike(tot) else tot
+
+
+def shifted_ym(year, month, years, months):
+    """(target year, target month) of the calendar shift, as terms"""
+    total = sym.add(sym.add(sym.mul(year, 12), sym.sub(month, 1)), sym.add(sym.mul(years, 12), months))
+    return sym.fdiv(total, 12), sym.add(sym.fmod(total, 12), 1)
+
+
+def clamp_day(ty, tmo, day):
+    return sym.minv(day, spec.dim(ty, tmo))
+
+
+def has_time(dt):
+    return isinstance(dt, Obj) and issubclass(dt.cls, _dt.datetime)
+
+
+def base_wall(dt, ty, tmo):
+    d = clamp_day(ty, tmo, dt.day)
+    if has_time(dt):
+        return spec.wall_us_f(ty, tmo, d, dt.hour, dt.minute, dt.second, dt.microsecond)
+    return sym.mul(spec.ordinal(ty, tmo, d), DUS)
+
+
+def obj_wall(o):
+    return spec.wall_us(o) if has_time(o) else sym.mul(spec.date_ord(o), DUS)
+
+
+def _normalised(e, en, a):
+    """cut assertion after the carry normalisation: the elapsed total and the month total are unchanged"""
+    before = delta_exact(a.weeks, a.days, a.hours, a.minutes, a.seconds, a.microseconds)
+    after = delta_exact(0, e.days, e.hours, e.minutes, e.seconds, e.microseconds)
+    return [("elapsed_total_unchanged", eq(after, before)),
+            ("month_total_unchanged", eq(sym.add(sym.mul(e.years, 12), e.months), sym.add(sym.mul(a.years, 12), a.months))),
+            ("months_within_a_year", And(ge(e.months, -11), le(e.months, 11))),
+            # with a float `seconds` the carries make minutes/hours/days floats too - but integral ones
+            ("carried_units_are_integral", And(*[_integral(getattr(e, n)) for n in ("days", "hours", "minutes")])),
+            ("integer_units_stay_integers", all(sym.is_intlike(getattr(e, n)) for n in ("microseconds", "years", "months"))),
+            # a plain date reaches this point only without time units (otherwise RuntimeError was raised above)
+            ("date_has_no_time_units", True if has_time(a.dt) else And(eq(a.hours, 0), eq(a.minutes, 0), eq(a.seconds, 0), eq(a.microseconds, 0)))]
+
+
+def _integral(x):
+    if sym.is_intlike(x):
+        return True
+    return eq(x, sym.toreal(sym.floor(x)))
+
+
+def delta_exact(weeks, days, hours, minutes, seconds, microseconds):
+    return sym.add(sym.mul(sym.add(sym.mul(weeks, 7), days), DUS),
+                   sym.add(sym.mul(sym.add(sym.add(sym.mul(hours, 3600), sym.mul(minutes, 60)), seconds), M), microseconds))
+
+
+class _add_duration_base:
+    """C04: shift years and months, clamp the day to the target month, then add weeks/days/time on the calendar"""
+    cuts = [Cut("year = dt.year + years", _normalised, name="normalised")]
+
+    def requires(dt, **u):
+        return [("valid_input", stdlib.valid_dt(dt) if has_time(dt) else spec.valid_date(dt.year, dt.month, dt.day)),
+                ("naive_native_input", dt.f.get("tzinfo") is None)]
+
+    @staticmethod
+    def _target(dt, u):
+        ty, tmo = shifted_ym(dt.year, dt.month, u["years"], u["months"])
+        w = sym.add(base_wall(dt, ty, tmo), delta_us(u["weeks"], u["days"], u["hours"], u["minutes"], u["seconds"], u["microseconds"]))
+        return ty, tmo, w
+
+    raises = [
+        (RuntimeError, "time_units_on_a_date", lambda dt, **u:
+            And(not has_time(dt), Or(ne(u["hours"], 0), ne(u["minutes"], 0), ne(u["seconds"], 0), ne(u["microseconds"], 0)))),
+        (ValueError, "target_year_out_of_range", lambda dt, **u:
+            And(Or(has_time(dt), And(eq(u["hours"], 0), eq(u["minutes"], 0), eq(u["seconds"], 0), eq(u["microseconds"], 0))),
+                Not(spec.valid_year(_add_duration_base._target(dt, u)[0])))),
+        (OverflowError, "result_out_of_range", lambda dt, **u:
+            And(Or(has_time(dt), And(eq(u["hours"], 0), eq(u["minutes"], 0), eq(u["seconds"], 0), eq(u["microseconds"], 0))),
+                spec.valid_year(_add_duration_base._target(dt, u)[0]),
+                Or(Not(stdlib.td_in_range(delta_us(u["weeks"], u["days"], u["hours"], u["minutes"], u["seconds"], u["microseconds"]))),
+                   Not(_in_range(dt, _add_duration_base._target(dt, u)[2]))))),
+    ]
+
+    def result(F, dt, **u):
+        if has_time(dt):
+            o, _ = stdlib.fresh_datetime(F, dt.cls, "added", tzinfo=None, fold=0)
+        else:
+            o, _ = stdlib.fresh_date(F, dt.cls, "added")
+        return o
+
+    def ensures(result, dt, **u):
+        ty, tmo, w = _add_duration_base._target(dt, u)
+        valid = stdlib.valid_dt(result) if has_time(dt) else spec.valid_date(result.year, result.month, result.day)
+        if has_time(dt):
+            pos = eq(spec.wall_us(result), w)
+        else:
+            # a date moves by whole days: date + timedelta uses the day count of the delta
+            pos = eq(spec.date_ord(result), sym.fdiv(w, DUS))
+        return [("valid_fields", valid), ("class", result.cls is dt.cls), ("calendar_shift_clamp_then_elapsed", pos)]
+
+    def assume(F, result, dt, **u):
+        # the same relation with the month shift stated multiplicatively (fresh ty, tmo) instead of // and % 12
+        ty, tmo = F.int("ty"), F.int("tmo")
+        total = sym.add(sym.add(sym.mul(dt.year, 12), sym.sub(dt.month, 1)), sym.add(sym.mul(u["years"], 12), u["months"]))
+        w = sym.add(base_wall(dt, ty, tmo), delta_us(u["weeks"], u["days"], u["hours"], u["minutes"], u["seconds"], u["microseconds"]))
+        valid = stdlib.valid_dt(result) if has_time(dt) else spec.valid_date(result.year, result.month, result.day)
+        pos = eq(spec.wall_us(result), w) if has_time(dt) else eq(spec.date_ord(result), sym.fdiv(w, DUS))
+        return [("ym", And(eq(sym.add(sym.mul(ty, 12), sym.sub(tmo, 1)), total), sym.between(1, tmo, 12), spec.valid_year(ty))),
+                ("valid_fields", valid), ("calendar_shift_clamp_then_elapsed", pos)]
+
+
+def _in_range(dt, w):
+    if has_time(dt):
+        return stdlib.in_dt_range(w)
+    return And(ge(sym.fdiv(w, DUS), 1), le(sym.fdiv(w, DUS), spec.MAXORD))
+
+
+def _ad_args(kind):
+    def args(F):
+        if kind == "date":
+            dt, c = stdlib.fresh_date(F, _dt.date, "dt")
+        else:
+            dt, c = stdlib.fresh_datetime(F, _dt.datetime, "dt", tzinfo=None)
+        a = dict(dt=dt)
+        for n in _UNITS:
+            a[n] = F.int(n)
+        if kind == "datetime_real_seconds":
+            a["seconds"] = F.real("seconds")
+        return a, [c]
+
+    return args
+
+
+@contract("pendulum.helpers.add_duration", props=["C03", "C04", "C06", "C19"])
+class add_duration:
+    class on_datetime(_add_duration_base):
+        applies = staticmethod(lambda dt, **u: has_time(dt) and not sym.is_reallike(u["seconds"]))
+        args = _ad_args("datetime")
+
+    class on_datetime_real_seconds(_add_duration_base):
+        applies = staticmethod(lambda dt, **u: has_time(dt) and sym.is_reallike(u["seconds"]))
+        args = _ad_args("datetime_real_seconds")
+        cuts = [Cut("year = dt.year + years", _normalised, name="normalised", havoc_real=("seconds", "minutes", "hours", "days"))]
+
+    class on_date(_add_duration_base):
+        applies = staticmethod(lambda dt, **u: not has_time(dt))
+        args = _ad_args("date")
+
+    cases = {"datetime": on_datetime, "datetime_real_seconds": on_datetime_real_seconds, "date": on_date}
+
+
+transparent("pendulum.helpers._sign")
